@@ -79,6 +79,32 @@ CHECKS = {
    note="Assumed string-library contracts: ' '.join(text.splitlines()) contains no line break; str.replace(a, b) leaves no occurrence of a (b not containing a). "
         "Both, and the text<->block bridge, are exercised by a bounded end-to-end differential (hostile texts x 10 styles x 2 line endings x 11 entry points, "
         "independent lexer). Custom comment symbols containing '{}' are outside the enumeration."),
+ "C10": dict(category="proof",
+   text="Each shape's curve closure (arc_function, helix_function) is extracted from the real method and verified POINTWISE for a symbolic θ ∈ [0,1] with the "
+        "captured variables constrained by the symbolic run of the enclosing method: arcs/circles — every vertex on the circle of the start radius about the "
+        "given centre, Z linear, f(0) = current position, f(1) = target within the np.isclose tolerance of the radius check, sweep in [−2π,0) (CW) / (0,2π] (CCW), "
+        "circle = full turn; helix/spiral/thread — radius linear in θ, total sweep = enforced base sweep + (turns−1) whole turns, exact end point, thread centre "
+        "equidistant (constant radius), spiral starts on its centre, thread turns = max(1,⌊|Δz|/pitch⌋); Direction.enforce; parametric() samples θ = k/n incl. 1, "
+        "filters, and traces every surviving vertex through to_distance_mode()+move(); _filter_segments never drops the last sample; one traced segment puts the "
+        "builder exactly on its vertex in both distance modes.",
+   note="A-pi, A-real; trigonometry only through named lemma instances T1–T6 (lemmas/Trig.lean); numpy elementwise = pointwise; np.linspace/np.diff/norm/mask indexing assumed. "
+        "BOUNDED (not proof): spline clauses (scipy CubicSpline), the two geometric clauses of arc_radius (centre equidistant, minor/major side) which the solvers do not decide "
+        "inside the VC, polyline for list length 3, and an end-to-end run of all 8 shapes on the real builder."),
+ "C11": dict(category="proof",
+   text="The absolute target every shape works from is computed by to_absolute() in either mode and the curve closures depend only on it (same obligations proved from an "
+        "arbitrary distance mode, no case on the mode survives in the proved vertex functions); one interpolated segment move(to_distance_mode(P)) is proved to land exactly "
+        "on the absolute vertex P in both modes; move/rapid/move_absolute/rapid_absolute and the absolute_mode()/relative_mode() managers are proved to reach the requested "
+        "absolute target and to restore the mode; circle() is accepted in both modes.",
+   note="Identity transform; A-real (relative mode accumulates output rounding per segment — the bounded end-to-end comparison uses a tolerance linear in the number of segments). "
+        "Spline in both modes: bounded only."),
+ "C12": dict(category="other",
+   text="Deductive: the loop of _filter_segments (loop contract with a ghost accumulator) keeps a vertex exactly when the chord length accumulated since the last kept vertex "
+        "exceeds 0.9·resolution — kept ⇒ 0.9·res < s ≤ 0.9·res + dᵢ, dropped ⇒ s ≤ 0.9·res — examines distances[:-1] only and never drops the last sample; parametric() takes "
+        "n = max(2, ⌊10·length/resolution⌋) samples; arc() hands parametric() the exact constant-speed length hypot(radius·sweep, height); set_length_units rescales the "
+        "resolution to the same length in pixels. NOT decided deductively: the chord-vs-arc 'about' constants for actual segment lengths and 'halving the resolution never "
+        "yields fewer segments' — bounded end-to-end check only, hence category 'other'.",
+   note="numpy array semantics (diff, norm, boolean mask, vstack) assumed; bounded stand-in: seeded random constant-speed shapes on the real builder, segment lengths within "
+        "[0.85, 1.05]·resolution, halving check for all 8 shapes."),
  "C13": dict(category="proof",
    text="save_state/restore_state (stack and named forms, empty-stack and missing-name cases), delete_state: exact effect on the abstract view "
         "(current, stack, named map) incl. frames, with heap SEPARATION (current, every stack entry and every named entry are distinct objects "
@@ -127,9 +153,9 @@ CHECKS = {
 NOT_APPLICABLE = {
  
  
- "C10": "checks for this property are still being built in this round (will be claimed once its units discharge); not a statement about applicability",
- "C11": "checks for this property are still being built in this round (will be claimed once its units discharge); not a statement about applicability",
- "C12": "checks for this property are still being built in this round (will be claimed once its units discharge); not a statement about applicability",
+ 
+ 
+ 
  
  
  "C15": "checks for this property are still being built in this round (will be claimed once its units discharge); not a statement about applicability",
